@@ -736,6 +736,47 @@ func handle(req *request) (ans map[string]any) {
 		return
 	}
 	switch req.Cmd {
+	case "callrandom":
+		// the generated client called with type-directed random arguments (seed in Text): does it panic?
+		if err := s.ensureClient(); err != nil {
+			ans["error"] = err.Error()
+			return
+		}
+		s.cur = &req.Script
+		s.ob = &obs{}
+		m := reflect.ValueOf(s.client).MethodByName(req.Op)
+		if !m.IsValid() {
+			ans["error"] = "no client method " + req.Op
+			return
+		}
+		var seed uint64
+		fmt.Sscan(req.Text, &seed)
+		rd := &rnd{s: seed}
+		mt := m.Type()
+		args := []reflect.Value{reflect.ValueOf(context.Background())}
+		for i := 1; i < mt.NumIn(); i++ {
+			if mt.IsVariadic() && i == mt.NumIn()-1 {
+				continue
+			}
+			args = append(args, RandomValue(mt.In(i), rd, 3))
+		}
+		var given []string
+		for _, a := range args[1:] {
+			given = append(given, Canon(a))
+		}
+		ans["given"] = strings.Join(given, " ")
+		func() {
+			defer func() {
+				if r := recover(); r != nil {
+					ans["panic"] = fmt.Sprint(r)
+				}
+			}()
+			outv := m.Call(args)
+			if e := outv[len(outv)-1]; !e.IsNil() {
+				ans["err"] = e.Interface().(error).Error()
+			}
+		}()
+		ans["server"] = s.ob
 	case "stress":
 		var sr stressReq
 		b, _ := json.Marshal(req.Value)
